@@ -71,6 +71,8 @@ def check_all_kinds(rec, B, G, PG, qubits, N, gs, ps, rng, dense=True, tag=""):
     case = {"G": O.show(G, PG), "qubits": list(qubits), "N": N, "ops": [O.show(g, p) for g, p in zip(gs[:6], ps[:6])], "L": len(gs)}
     sub = "rot.list" if full else "rot.mask.list"
     gen_ = B.Pauli(G, PG)
+    if B.name == "np" and rng.integers(3) == 0:
+        B.freeze(gen_)      # the generator is only read
     kw = {} if full else {"mask": _lib_mask(B, qubits, N)}
     # oracle self-consistency on the dense layer (N small): rule == U^dag P U
     if dense and N <= 3:
@@ -126,6 +128,8 @@ def check_map_state(rec, B, G, PG, qubits, N, rng):
     """maps and states as receivers: all 2N rows rotated; state additionally rho' = U^dag rho U, r unchanged."""
     full = (len(qubits) == N)
     gen_ = B.Pauli(G, PG)
+    if B.name == "np" and rng.integers(3) == 0:
+        B.freeze(gen_)      # the generator is only read
     kw = {} if full else {"mask": _lib_mask(B, qubits, N)}
     Gfull = O.embed_string(G, qubits, N)
     mg, mp = O.random_map(rng, N)
@@ -256,6 +260,78 @@ def run_rand(shard, rec, B):
         check_all_kinds(rec, B, G, PG, qubits, N, gs, ps, rng, dense=(N <= 3))
         if t % 4 == 0 and N <= 16:
             check_map_state(rec, B, G, PG, qubits, N, rng)
+    # ONE generator object over a history: used, changed by its owner (in-place rotation / map, a written bit, a rebound string) so
+    # that it reaches other qubits, used again (unmasked and masked); and operands / generators parsed from a spelling, edited in
+    # place, and the same spelling parsed again
+    lib = B.paulialg
+    for t in range(max(20, shard["n"] // 8)):
+        N = int(rng.integers(2, 8))
+        gs, ps = gen.rand_list(rng, int(rng.integers(2, 7)), N), None
+        ps = rng.integers(0, 4, len(gs))
+        G = gen.sparse_string(rng, N, int(rng.integers(1, max(2, N // 2 + 1))))
+        PG = 2 * int(rng.integers(2))
+        Gobj = B.Pauli(G.copy(), PG)
+        cur = (G.copy(), PG)
+        hist = []
+        for step in range(4):
+            PL = B.PauliList(gs.copy(), ps.copy())
+            ok, _ = rec.attempt("rot.live_generator", [N, hist], lambda: PL.rotate_by(Gobj))
+            if not ok:
+                break
+            lg, lp = B.gsps(PL)
+            eg, ep = O.rot_image(cur[0], cur[1], gs, ps)
+            rec.check("rot.live_generator", np.array_equal(lg, eg) and np.array_equal(lp, ep), {"N": N, "generator_now": O.show(*cur), "history": list(hist),
+                      "ops": [O.show(a, b) for a, b in zip(gs, ps)]}, True, expected=[O.show(a, b) for a, b in zip(eg, ep)], observed=[O.show(a, b) for a, b in zip(lg, lp)])
+            how = int(rng.integers(4))
+            if how == 0:
+                for _ in range(30):
+                    H_ = gen.rand_nonid(rng, N)
+                    if O.anti(H_, cur[0]):
+                        break
+                Gobj.rotate_by(B.Pauli(H_.copy(), 0))
+                ng, np_ = O.rot_image(H_, 0, cur[0][None, :], np.array([cur[1]]))
+                cur = (ng[0], int(np_[0]))
+                hist.append("generator.rotate_by " + O.g2s(H_))
+            elif how == 1:
+                m = O.random_map(rng, N)
+                Gobj.transform_by(B.Map(m[0].copy(), m[1].copy()))
+                ng, np_ = O.map_image_list(m[0], m[1], cur[0][None, :], np.array([cur[1]]))
+                cur = (ng[0], int(np_[0]))
+                hist.append("generator.transform_by")
+            elif how == 2 and B.name == "np":
+                k = int(rng.integers(N))
+                ng = cur[0].copy()
+                ng[2 * k] ^= 1                       # one bit written (sigma[g] stays Hermitian for every g in this convention)
+                if not ng.any():
+                    break
+                Gobj.g[2 * k] = ng[2 * k]
+                cur = (ng, cur[1])
+                hist.append("generator.g[%d] written" % (2 * k))
+            else:
+                ng = gen.rand_nonid(rng, N)
+                Gobj.g = B.arr(ng.copy())
+                cur = (ng, cur[1])
+                hist.append("generator.g rebound")
+        # spellings
+        txt = ('-' if PG == 2 else '') + O.g2s(G)
+        ok, P1 = rec.attempt("rot.parsed", txt, lambda: lib.pauli(txt))
+        if ok:
+            for _ in range(30):
+                H_ = gen.rand_nonid(rng, N)
+                if O.anti(H_, G):
+                    break
+            ok, _ = rec.attempt("rot.parsed", txt, lambda: P1.rotate_by(B.Pauli(H_.copy(), 2)))
+            ok, P2 = rec.attempt("rot.parsed", txt, lambda: lib.pauli(txt))
+            if ok:
+                g2, p2 = B.gp(P2)
+                rec.check("rot.parsed", np.array_equal(g2, G) and p2 == PG, [txt, "parsed again after the first object was rotated in place"], True,
+                          expected=O.show(G, PG), observed=O.show(g2, p2))
+                PL = B.PauliList(gs.copy(), ps.copy())
+                ok, _ = rec.attempt("rot.parsed", txt, lambda: PL.rotate_by(lib.pauli(txt)))
+                if ok:
+                    lg, lp = B.gsps(PL)
+                    eg, ep = O.rot_image(G, PG, gs, ps)
+                    rec.check("rot.parsed", np.array_equal(lg, eg) and np.array_equal(lp, ep), [txt, "as generator"], True)
     # receivers that the library itself hands out as views / derived arrays: slices of a list, the output of inverse()
     for t in range(max(20, shard["n"] // 10)):
         N = int(rng.integers(2, 7))
